@@ -3,6 +3,7 @@ import BigtoolsModel.PyBinsProof
 import BigtoolsModel.PyBedBinsProof
 import BigtoolsModel.PyArr
 import BigtoolsModel.PyOob
+import BigtoolsModel.OverlapsGen
 /-! # C20 — Python-binding array routines compute the documented per-base and binned values
 
 Property theorems (statements copied from the lemma modules, proofs by those lemmas). -/
@@ -97,3 +98,13 @@ theorem C20_out_of_bounds_fill_per_base (start len : Int) (L k : Nat) (hL : 0 < 
     filled (-start) (len - start) L L k = true ↔ (start + k < 0 ∨ start + k ≥ len) := oob_fill_per_base start len L k hL hk
 
 end PYO
+
+namespace RT
+
+/-- **The code's own index-pruning predicate.** `Gen.overlaps` (regenerated from `overlaps` and the functions it calls in
+    bbiread.rs on every run) is, for all arguments, the `ov` with which the search theorems are stated; `values()` fills its arrays from range and zoom queries over that index. -/
+theorem C20_source_overlaps_is_the_models_ov (q qs qe b1 b1s b2 b2e : Nat) :
+    Gen.overlaps q qs qe b1 b1s b2 b2e = ov ⟨q, qs⟩ ⟨q, qe⟩ ⟨b1, b1s⟩ ⟨b2, b2e⟩ :=
+  gen_overlaps_eq_ov q qs qe b1 b1s b2 b2e
+
+end RT
